@@ -10,6 +10,7 @@ import WebpVerif.Lemmas.HuffShort
 import WebpVerif.Lemmas.ColorIndex
 import WebpVerif.Lemmas.CodeRead
 import WebpVerif.Lemmas.StreamCong
+import WebpVerif.Lemmas.LPred
 
 /-!
 # C01 — VP8L decoding matches the lossless specification for every valid stream
@@ -378,5 +379,67 @@ example : (CodeRead.readCode 40 [1, 1, 0, 1, 0, 0, 0, 0, 0, 0, 0, 0, 1]).map (·
     decodes it, wherever in the stream it stands. -/
 theorem entropy_layer_in_stream (bytes : List Nat) : LStream.decodeCrate bytes = VP8LP.decode bytes :=
   LStreamProof.decodeCrate_is_spec bytes
+
+
+/-! ### the inverse-transform drivers of `lossless_transform.rs` -/
+
+/-- **`apply_predictor_transform` is the specification's inverse predictor transform.**
+    `LTr.applyPredictor` models the driver as the code runs it, in place on the RGBA byte buffer and
+    in the code's own order - alpha of pixel 0, the rest of the first row with predictor 1, the first
+    column of every row with predictor 2, then row by row and block by block (`block_x << size_bits`
+    clipped to 1..width) the fourteen `apply_predictor_transform_N` loops, each reading the
+    neighbours it needs from the buffer it is writing (model tied to the real function byte for byte
+    on every run).  For EVERY width, height, `size_bits`, predictor sub-image with modes 0..13 and
+    residual buffer, the buffer afterwards, read as ARGB pixels, is exactly the specification's
+    `invPredictor` (raster order, neighbours L / T / TR / TL incl. the rule that the top-right of the
+    last pixel of a row is the first pixel of the row, per-channel arithmetic mod 256, Select's
+    Manhattan distances, the two clamps).  Modes 14 and 15 are outside the specification. -/
+theorem predictor_transform_is_spec (a d : Array Nat) (w h bits : Nat) (hw : 0 < w) (hh : 0 < h) (hs : a.size = 4 * (w * h))
+    (hb : LTrProof.Bytes a) (hd : LTrProof.Bytes d) (hd4 : d.size % 4 = 0) (hmode : ∀ k, d.getD (4 * k + 1) 0 < 14) :
+    LTrProof.pixels (LTr.applyPredictor w h bits d a) =
+      VP8LP.invPredictor bits (LTrProof.pixels d).toArray w (LTrProof.pixels a) 0 [] :=
+  LTrProof.predictor_is_spec a d w h bits hw hh hs hb hd hd4 hmode
+
+/-- the fourteen predictor bodies, channel by channel, are the specification's predictors for all
+    neighbour pixels (the kernel fact under `predictor_transform_is_spec`) -/
+theorem predictor_bodies_are_spec (m : Nat) (hm : m < 14) (L T TR TL : Nat) :
+    LTrProof.SameCh (LTrProof.packL (LTr.predPx m (LTrProof.bytesOf L) (LTrProof.bytesOf T) (LTrProof.bytesOf TR) (LTrProof.bytesOf TL)))
+      (VP8L.predict m L T TR TL) :=
+  LTrProof.predPx_is_predict m hm L T TR TL
+
+/-- **`apply_color_transform` is the specification's inverse colour transform** for every width,
+    `size_bits`, transform sub-image and buffer (rows as `chunks_exact_mut(width * 4)`, blocks as
+    `chunks_mut(4 << size_bits)`, wrapping u32 deltas against the signed arithmetic shift). -/
+theorem color_transform_is_spec (w h bits : Nat) (d a : Array Nat) (hb : LTrProof.Bytes a) (hd : LTrProof.Bytes d) (hd4 : d.size % 4 = 0)
+    (hs : a.size = 4 * w * h) (hw : 0 < w) :
+    LTrProof.pixels (LTr.applyColor w bits d a) = VP8LP.invColor bits (LTrProof.pixels d).toArray w (LTrProof.pixels a) 0 :=
+  LTrProof.color_is_spec w h bits d a hb hd hd4 hs hw
+
+/-- **`apply_subtract_green_transform` is the specification's** for every buffer -/
+theorem subtract_green_is_spec (a : Array Nat) (hb : LTrProof.Bytes a) (h4 : a.size % 4 = 0) :
+    LTrProof.pixels (LTr.applySubGreen a) = (LTrProof.pixels a).map VP8LP.invSubGreenPx :=
+  LTrProof.subGreen_is_spec a hb h4
+
+theorem bytes_of_all (a : Array Nat) (h : a.toList.all (· < 256) = true) : LTrProof.Bytes a := by
+  intro i
+  rw [List.all_eq_true] at h
+  simp only [Array.getD]
+  split
+  · rename_i hi
+    have := h (a[i]) (by simp [Array.getElem_mem_toList])
+    simpa using this
+  · omega
+
+-- non-vacuity: a 3 x 2 image, one block in Select mode (11); hypotheses hold, and the model computes
+-- the pixels the executable specification computes
+example : LTrProof.Bytes #[1, 2, 3, 4, 250, 6, 7, 8, 9, 200, 11, 12, 13, 14, 15, 16, 17, 18, 19, 20, 21, 22, 23, 24] ∧
+    LTrProof.Bytes #[0, 11, 0, 255] ∧ (∀ k, (#[0, 11, 0, 255] : Array Nat).getD (4 * k + 1) 0 < 14) := by
+  refine ⟨bytes_of_all _ (by decide), bytes_of_all _ (by decide), ?_⟩
+  intro k
+  rcases k with _ | k
+  · decide
+  · have : (#[0, 11, 0, 255] : Array Nat).getD (4 * (k + 1) + 1) 0 = 0 := by
+      simp only [Array.getD]; rw [dif_neg (by simp; omega)]
+    omega
 
 end C01
